@@ -121,6 +121,18 @@ def run(rep, tier, root=None):
                           "truncated to integers, which no longer equals the other copy of the law" % text, f.where(node))
         if not hz:
             rep.ok("V0.result-dtype", f.fq + ": result dtype does not follow an integer argument")
+    # ... nor on a precision below the double precision of the argument: D = 2 (C(0) - C(r)) is a difference of nearly equal
+    # numbers for r << L0
+    from ..common import narrowing_casts
+    for f in (fC, fD, fK, fKL, fKK):
+        nc = narrowing_casts(f)
+        for node, text in nc:
+            rep.violation("V0.precision", "%s: %s" % (f.fq, text),
+                          "%s narrows the computation to single precision: every value carries a relative error of about 1e-7 of the "
+                          "variance, which is the size of C(0) - C(r) for separations much smaller than the outer scale - 2 (C(0) - C(r)) "
+                          "is 0 or a few per cent off there, covariance matrices of finely sampled points are indefinite" % text, f.where(node))
+        if not nc:
+            rep.ok("V0.precision", f.fq + ": evaluated in the precision of its argument (no narrowing cast)")
     for f, v in ((fC, C), (fD, D), (fK, Dk), (fKL, Dkl), (fKK, Dkk)):
         rep.sample({"function": f.fq, "normal_form": nf(v)})
         if has_unknown(v):
